@@ -424,6 +424,11 @@ def run(repo, rep, tier):
     _position_by_index(repo, rep)
     real_text_rule(repo, rep)
     nested_objects_encoded_completely(repo, rep)
+    # the path of a decoded instance arrives as it was sent: it is attached
+    # after the properties (CIMInstance.__setitem__ would rewrite its
+    # keybindings from same-named properties)
+    from .c04 import path_attached_after_properties
+    path_attached_after_properties(repo, rep, 'C01.R17')
     # the datetime writer str(CIMDateTime) is part of every VALUE written for
     # a datetime: same exact-arithmetic rule as C06.R8
     from .c06 import _r8_exact_fields
